@@ -53,7 +53,7 @@ class Schedule:
         return pairs
 
 
-def make_providers(schedule, rc=None, fc=None, hints=None, packages=None, fc_function=None):
+def make_providers(schedule, rc=None, fc=None, hints=None, packages=None, fc_function=None, decoys=True):
     """
     rc: key -> letter; fc: key -> bool (message embeds the key); hints: key -> text; packages: key -> text | None.
     fc_function(key, text) -> (bool, message) overrides fc (used by C15: the answer depends on the entered text).
@@ -130,4 +130,35 @@ def make_providers(schedule, rc=None, fc=None, hints=None, packages=None, fc_fun
                 edifact_format=sut.FMT, package_key=package_key, package_expression=packages.get(package_key)
             )
 
-    return [Rc(), Fc(), Hints(), Packages()]
+    providers = [Rc(), Fc(), Hints(), Packages()]
+    if decoys:
+        # evaluators registered for another EDIFACT format (one evaluator per format is the normal set-up): same keys,
+        # opposite answers; they must never be consulted for UTILMD data
+        from efoli import EdifactFormat
+
+        class DecoyRc(RcEvaluator):
+            edifact_format = EdifactFormat.MSCONS
+            edifact_format_version = sut.VER
+
+            def _get_default_context(self):
+                return EvaluationContext(scope=None)
+
+        for key, value in rc.items():
+
+            def wrong_rc(self, evaluatable_data, context, value=value):  # pylint:disable=unused-argument
+                return sut.cfv("U" if value == "F" else "F")
+
+            setattr(DecoyRc, f"evaluate_{key}", wrong_rc)
+
+        class DecoyFc(FcEvaluator):
+            edifact_format = EdifactFormat.MSCONS
+            edifact_format_version = sut.VER
+
+        for key in fc_keys:
+
+            def wrong_fc(self, entered_input, key=key):  # pylint:disable=unused-argument
+                return EvaluatedFormatConstraint(False, f"decoy {key}")
+
+            setattr(DecoyFc, f"evaluate_{key}", wrong_fc)
+        providers += [DecoyRc(), DecoyFc()]
+    return providers
